@@ -219,7 +219,9 @@ func (c *CW) writerRound(scripts [][]wOp, picker sched.Picker, extra func(s *sch
 				case lin.Lookup:
 					n := w.GetNode(c.itemFor(o.key, "get"))
 					op.Ok = n != nil
-					if n != nil && c.kv {
+					// with user-managed memory the node may be reclaimed as soon as GetNode returns
+					// (the caller holds no barrier token): only its presence is observed there
+					if n != nil && c.kv && !c.mm {
 						_, v := nitro.KVFromBytes(nitro.VerifItemFromNode(n).Bytes())
 						op.Val = string(v)
 					}
@@ -291,7 +293,10 @@ func (c *CW) snapshot(ops []lin.Op, keys []string) *snapInfo {
 		c.f.failf("newsnapshot-error", "%v", err)
 	}
 	sn, _ := nitro.VerifSnapshotSn(snap)
+	si := &snapInfo{snap: snap, sn: sn, refs: 1}
+	c.snaps = append(c.snaps, si) // registered first so that teardown can always release it
 	content := c.scan(snap)
+	si.content = content
 	if int64(len(content)) != snap.Count() {
 		c.f.failf("snapshot-count", "snapshot Count()=%d but its scan has %d items %q\nops: %v", snap.Count(), len(content), content, ops)
 	}
@@ -347,8 +352,6 @@ func (c *CW) snapshot(ops []lin.Op, keys []string) *snapInfo {
 			}
 		}
 	}
-	si := &snapInfo{snap: snap, sn: sn, content: content, refs: 1}
-	c.snaps = append(c.snaps, si)
 	return si
 }
 
@@ -493,7 +496,7 @@ func (c *CW) teardown() {
 		select {
 		case <-done:
 			return true
-		case <-time.After(2 * time.Second):
+		case <-time.After(500 * time.Millisecond):
 			return false
 		}
 	}()
